@@ -43,6 +43,18 @@ let cmds_of (c : cfg) (s : string) : M.cmd list =
 
 let config fixed cap : M.config = if fixed then M.repaired (nat_of_int cap) else M.literal (nat_of_int cap)
 
+(* one step of the REAL threads = the code between two yield points.  The model is finer: acquiring the
+   guard of the breakpoint set and using + dropping it are two steps with no yield point in between
+   (PLock -> PHeld -> .., CIdle -> EAdd/EDel -> CIdle); the second one is always enabled and is taken at once. *)
+let mstep (cf : M.config) (s : M.state) (t : M.tid) : M.state option =
+  match M.step cf s t with
+  | None -> None
+  | Some s' ->
+    (match t, s'.M.p_pc, s'.M.c_pc with
+     | M.P, M.PHeld _, _ -> M.step cf s' M.P
+     | M.C, _, (M.EAdd _ | M.EDel _) -> M.step cf s' M.C
+     | _ -> Some s')
+
 let ev_str = function
   | M.EvBp (r, p) -> Printf.sprintf "B%d@%d" (int_of_n r) (int_of_n p)
   | M.EvEof -> "EOF" | M.EvErr _ -> "ERR" | M.EvAbort -> "ABORT"
@@ -54,9 +66,10 @@ let c_name (s : M.state) = match s.M.c_pc with
   | M.CIdle -> if s.M.cmds = [] then "end" else "cmd"
   | M.RLoad _ -> "r_load" | M.RStore _ -> "r_store" | M.RUnpark _ -> "r_unpark" | M.RJoin _ -> "r_join"
   | M.RReset _ -> "r_reset" | M.RSpawn _ -> "r_spawn" | M.KLoad -> "c_load" | M.KUnpark -> "c_unpark"
+  | M.EAdd _ | M.EDel _ -> "edit"
 let p_name fixed (s : M.state) = match s.M.p_pc with
   | M.PNone -> "none" | M.PStart _ -> "t_start" | M.PLoad _ -> "l_load" | M.PLock _ -> "l_lock"
-  | M.PSend _ -> "l_send" | M.PPark _ -> "l_park"
+  | M.PHeld _ -> "held" | M.PSend _ -> "l_send" | M.PPark _ -> "l_park"
   | M.PFinal _ -> if fixed then "t_final" else "t_final_send"
   | M.PFinalSend _ -> "t_final_send" | M.PStore -> "t_store" | M.PExit -> "t_exit" | M.PDone -> "done" | M.PDead -> "dead"
 
@@ -69,7 +82,7 @@ let simulate fixed cap (c : cfg) bps cmds sched : string * M.state option =
   String.iter (fun ch ->
       if !ok then begin
         let t = if ch = 'C' then M.C else M.P in
-        match M.step cf !s t with
+        match mstep cf !s t with
         | None -> ok := false; Buffer.add_string tr (Printf.sprintf "%c:DISABLED " ch)
         | Some s' -> s := s';
           Buffer.add_string tr (Printf.sprintf "%c:%s " ch (if ch = 'C' then c_name s' else p_name fixed s'))
@@ -97,7 +110,7 @@ let enumerate fixed cap (c : cfg) bps cmds k =
     let ec = M.enabled cf s M.C and ep = M.enabled cf s M.P in
     if not ec && not ep then emit c cap bps cmds (Bytes.sub_string buf 0 n)
     else begin
-      let take t ch k' = match M.step cf s t with
+      let take t ch k' = match mstep cf s t with
         | Some s' -> Bytes.set buf n ch; go s' ch (n + 1) k'
         | None -> () in
       let cur_enabled = (cur = 'C' && ec) || (cur = 'P' && ep) in
@@ -136,7 +149,7 @@ let random_case fixed (c : cfg) nrules =
       let cur_en = if !cur = M.C then ec else ep and oth_en = if !cur = M.C then ep else ec in
       let t = if cur_en && (not oth_en || below 4 <> 0) then !cur else other in
       cur := t;
-      (match M.step cf !s t with Some s' -> s := s' | None -> stop := true);
+      (match mstep cf !s t with Some s' -> s := s' | None -> stop := true);
       Buffer.add_char b (if t = M.C then 'C' else 'P')
     end
   done;
@@ -151,7 +164,13 @@ let histories (c : cfg) : (int list * string) list =
       ([2], "R,V,K,K,R,V");              (* cont without an unanswered event, then re-run *)
       ([], "R,K,V,K");                   (* no breakpoints *)
       ([2], "R,V,D2,K,V");               (* delete racing with the lookups *)
-      ([], "R,A2,V,K,V") ]               (* add racing with the lookups *)
+      ([], "R,A2,V,K,V");                (* add racing with the lookups *)
+      ([2], "R,V,A1,D2,K,V,D1,K,V") ]    (* edits while stopped at a breakpoint *)
+  else if c.id = "builtin" then  (* ANY0 ASCII_DIGIT1 EOI2 NEWLINE3 SOI4 line5 other6 word7 *)
+    [ ([2;7], "R,V,K,V,K,V,K,V");        (* word and EOI: word@0 word@2 EOI@4 Eof *)
+      ([0;3;4], "R,V,K,V,K,V,K,V");      (* built-ins alone: SOI@0 ANY@2 NEWLINE@3 Eof *)
+      ([1], "R,V,K,V,K,R,V");            (* ASCII_DIGIT (three visits), then a re-run *)
+      ([2], "R,V,A0,K,V") ]              (* EOI, ANY added while running *)
   else
     [ ([0;1;2;3;4], "R,V,K,R,V");
       ([0;1], "R,V,K,V,K,V,K");
@@ -221,7 +240,7 @@ let run_entries fixed cap (c : cfg) bps cmds sched : (int * bool) list =
   let acc = ref [] and ok = ref true in
   String.iteri (fun i ch ->
       if !ok then
-        match M.step cf !s (if ch = 'C' then M.C else M.P) with
+        match mstep cf !s (if ch = 'C' then M.C else M.P) with
         | None -> ok := false
         | Some s' ->
           (match !s.M.c_pc, s'.M.c_pc with
@@ -229,6 +248,22 @@ let run_entries fixed cap (c : cfg) bps cmds sched : (int * bool) list =
            | _ -> ());
           s := s') sched;
   List.rev !acc
+
+(* indices of the schedule steps in which the controller executes add_breakpoint / delete_breakpoint *)
+let edit_steps fixed cap (c : cfg) bps cmds sched : int list =
+  let cf = config fixed cap in
+  let s = ref (M.init (cmds_of c cmds) (List.map nat_of_int bps)) in
+  let acc = ref [] and ok = ref true in
+  String.iteri (fun i ch ->
+      if !ok then begin
+        (if ch = 'C' then match !s.M.c_pc, !s.M.cmds with
+            | M.CIdle, (M.CAdd _ | M.CDel _) :: _ -> acc := i :: !acc
+            | _ -> ());
+        match mstep cf !s (if ch = 'C' then M.C else M.P) with
+        | None -> ok := false
+        | Some s' -> s := s'
+      end) sched;
+  !acc
 
 (* ---- main ---------------------------------------------------------------------------------- *)
 let () =
@@ -284,6 +319,14 @@ let () =
                if agree 0 then report "spec" case impl "run() returns: every delivered event had been received when it was called (threads left the model's schedule; run freely for 1.5 s)"
              | _ -> ()
            end);
+          (* a breakpoint edit that does not return (the model proves it never blocks: C17_breakpoint_edits_never_block) *)
+          (let itr = (match String.split_on_char '|' impl with t :: _ -> String.split_on_char ' ' t | [] -> []) in
+           let etr = (match String.split_on_char '|' expected with t :: _ -> String.split_on_char ' ' t | [] -> []) in
+           List.iteri (fun i x ->
+               if x = "C:TIMEOUT" && List.mem i (edit_steps !fixed (int_of_string cap) c (ints bps) cmds sched) then begin
+                 let rec agree k = k >= i || (List.nth_opt itr k = List.nth_opt etr k && agree (k + 1)) in
+                 if agree 0 then report "spec" case impl "add_breakpoint / delete_breakpoint returns (it blocked for 2 s: the breakpoint set is locked while the parse is stopped)"
+               end) itr);
           (match spec_oracle c (ints bps) cmds impl expected with
            | Some m -> report "spec" case impl m
            | None -> ());
